@@ -368,6 +368,10 @@ namespace OP2Utility::Archive
 		}
 
 		CountValidEntries();
+
+		if (m_Count > m_StringTable.size()) {
+			throw std::runtime_error("The index table lists more files than the string table names in volume " + m_ArchiveFilename);
+		}
 	}
 
 	void VolFile::ReadStringTable()
